@@ -65,6 +65,12 @@ KINDS = {
                         '>>> R()  # FAILMARK', 'something', 'second line', 'third line'], None),
     'bad_repr_line4': (['>>> x0 = 1', '>>> class R:', '...     def __repr__(self):', '...         raise RuntimeError("norepr")',
                         '', 'prose splits the parts', '', '>>> R()  # FAILMARK', 'something', 'second line', 'third line'], None),
+    # the class with the raising __repr__ lives in the module under test; output of earlier want-less parts is pending
+    'bad_repr_modclass': (['>>> ModBadRepr()  # FAILMARK', 'something'], None),
+    'bad_repr_modclass_pending_output': (['>>> print("unmatched output")', '', 'prose in between', '',
+                                          '>>> ModBadRepr()  # FAILMARK', 'something'], None),
+    'bad_repr_pending_output': (['>>> class R:', '...     def __repr__(self):', '...         raise RuntimeError("norepr")',
+                                 '>>> print("unmatched output")', '>>> R()  # FAILMARK', 'something'], None),
     'bad_directive': (['>>> x = 1  # xdoctest: +REQUIRES(notatag) FAILMARK'], 'Exception'),
     'bad_directive_block': (['>>> # xdoctest: +REQUIRES(notatag) FAILMARK', '>>> x = 1'], 'Exception'),
     # unbalanced parentheses in a directive comment that the parser does not look at (extra blanks after the prompt):
@@ -119,7 +125,8 @@ def shape_lines(rng, shape):
 
 
 def gen_module(rng, uid, kind, pos, shape):
-    out = ['def modfunc_bad():', '    return 1/0', '']
+    out = ['def modfunc_bad():', '    return 1/0', '', 'class ModBadRepr:', '    def __repr__(self):',
+           '        raise RuntimeError("norepr")', '']
     expect = []      # (callname, kind or None, marker)
     n = {'first': rng.randint(2, 3), 'middle': 3, 'last': rng.randint(2, 3)}[pos]
     failing = {'first': 0, 'middle': 1, 'last': n - 1}[pos]
